@@ -26,6 +26,14 @@ package mqttproxy
 //            that the teardown of a client that went away without DISCONNECT
 //            (close, reset, half-close, takeover) runs through a refused will.
 //
+//            The admin task may also update the MQTTProxy with an unchanged
+//            spec (what MQTTProxy.Inherit does: close the broker, start a new
+//            one on the same port, same store) while connections are in their
+//            handshake; the table rule (C17.mqtt-cap-exceeded) and the ping
+//            evidence count the clients of ALL generations of the broker: a
+//            client that a closed broker admitted and serves is a connected
+//            client of the proxy.
+//
 // A second binary, harness/C17L (check.json "also"), drives the LimitListener
 // directly (no net/http) with limitlistener.go instrumented: several goroutines
 // closing one accepted connection at the same time.
@@ -83,6 +91,10 @@ package mqttproxy
 //     arbitrary time after the socket was opened: a broker may give up on a peer
 //     that does not send CONNECT in reasonable time, such a socket is not a
 //     connected client (probe mqtt.silent_socket_dropped_before_connack);
+//   * an update of the proxy drops what the old broker had: connections begun
+//     before the update was over may be closed without CONNACK, refused dials
+//     during the update are retried, and such connections leave the
+//     CONNACK-based "certainly connected" set;
 //   * a takeover of a connected id while the broker is at its cap may be
 //     accepted or refused (counted by probes mqtt.takeover_at_cap_*);
 //   * ids used with CleanSession=true (ids of their own in most runs, pool ids
@@ -185,8 +197,9 @@ type c17MClient struct {
 // (DELETE /mqttproxy/<name>/sessions): store delete -> delete watch ->
 // Broker.deleteSession(id).
 type c17MDel struct {
-	GapUs int64  `json:"gap_us"`
-	ID    string `json:"id"`
+	GapUs   int64  `json:"gap_us"`
+	ID      string `json:"id"`
+	Restart bool   `json:"restart"` // not a session delete: the MQTTProxy is updated with an unchanged spec (old broker closed, new broker on the same port)
 }
 
 type c17Scenario struct {
@@ -328,7 +341,7 @@ func c17GenMQTT(rng *sim.Rand, sc *c17Scenario) {
 	}
 	withDel := rng.Bool(0.5)
 	if withDel && rng.Bool(0.45) {
-		c17GenMQTTEvict(rng, sc, rng.Bool(0.3))
+		c17GenMQTTEvict(rng, sc, rng.PickStr("delete", "delete", "delete", "echo", "echo", "update", "update"))
 		return
 	}
 	pool := sc.Cap + rng.Pick(0, 1, 1, 2)
@@ -395,6 +408,11 @@ func c17GenMQTT(rng *sim.Rand, sc *c17Scenario) {
 		for k, n := 0, rng.Range(1, 4); k < n; k++ {
 			sc.MAdmin = append(sc.MAdmin, c17MDel{GapUs: dur(), ID: fmt.Sprintf("c%d", rng.Intn(pool))})
 		}
+		if rng.Bool(0.3) {
+			// ... one of them is an update of the proxy instead
+			k := rng.Intn(len(sc.MAdmin))
+			sc.MAdmin[k].ID, sc.MAdmin[k].Restart = "", true
+		}
 	}
 }
 
@@ -409,7 +427,14 @@ func c17GenMQTT(rng *sim.Rand, sc *c17Scenario) {
 // echo = true: no admin request; the victim's first connection has
 // CleanSession set and ends at T, so that the broker itself removes the stored
 // session and the delete watch reports that removal while the id comes back.
-func c17GenMQTTEvict(rng *sim.Rand, sc *c17Scenario, echo bool) {
+//
+// mode "update": instead of a session delete the MQTTProxy is updated at T
+// (unchanged spec: the broker is closed and a new one started on the same
+// port) while a connection with an id of its own is in its handshake, and as
+// many fresh ids as the cap allows arrive afterwards.
+func c17GenMQTTEvict(rng *sim.Rand, sc *c17Scenario, mode string) {
+	echo := mode == "echo"
+	update := mode == "update"
 	sc.Cap = rng.Pick(1, 2, 2, 2, 3, 3, 4)
 	T := int64(rng.Pick(1, 10, 1000, 100000, 1000000))
 	// the CONNECT packet of the harness client (client id "cN") has 16 bytes
@@ -457,10 +482,16 @@ func c17GenMQTTEvict(rng *sim.Rand, sc *c17Scenario, echo bool) {
 		sc.MClients = append(sc.MClients, c17MClient{Ops: []c17MOp{{GapUs: int64(rng.Pick(0, 0, 1)), ID: id(i), HoldUs: int64(rng.Pick(0, 10, 1000)), Pings: rng.Pick(0, 1, 2), End: end(), Will: will()}}})
 	}
 	// the delete(s)
-	if !echo {
+	if update {
+		sc.MAdmin = append(sc.MAdmin, c17MDel{GapUs: T + jit(), Restart: true})
+		if sc.DelayUs > 0 && rng.Bool(0.5) {
+			// in the middle of the CONNECT's flight
+			sc.MAdmin[0].GapUs = T + arrive/2
+		}
+	} else if !echo {
 		sc.MAdmin = append(sc.MAdmin, c17MDel{GapUs: T + jit(), ID: id(0)})
 	}
-	if !echo && rng.Bool(0.3) {
+	if !echo && !update && rng.Bool(0.3) {
 		sc.MAdmin = append(sc.MAdmin, c17MDel{GapUs: int64(rng.Pick(0, 0, 1, 10, 1000)), ID: id(rng.Intn(pre + 1))})
 	}
 	// the victim comes back (once or twice)
@@ -470,7 +501,11 @@ func c17GenMQTTEvict(rng *sim.Rand, sc *c17Scenario, echo bool) {
 	}
 	sc.MClients = append(sc.MClients, back)
 	// fresh ids afterwards
-	for k, n := 0, rng.Range(1, 3); k < n; k++ {
+	nl := rng.Range(1, 3)
+	if update {
+		nl = sc.Cap + rng.Range(0, 1)
+	}
+	for k, n := 0, nl; k < n; k++ {
 		sc.MClients = append(sc.MClients, c17MClient{Ops: []c17MOp{{GapUs: T + jit() + int64(rng.Pick(1, 10, 1000, 100000)), ID: id(pre + 1 + k), HoldUs: int64(rng.Pick(0, 10, 1000)), Pings: rng.Pick(0, 1, 2), End: end(), Will: will()}}})
 	}
 }
@@ -1190,6 +1225,7 @@ type c17MC struct {
 	pingSent  []int // sequence numbers at which this connection's PINGREQs were sent
 	answered  int   // how many of them were answered with a PINGRESP
 	clean     bool
+	dialSeq   int // taken before the socket is opened
 }
 
 type c17M struct {
@@ -1207,7 +1243,23 @@ type c17M struct {
 
 	sawRefused, sawFull, sawTakeover bool
 	sawZombiePong, sawServedAtCap    bool
+
+	// MQTTProxy updates: m.b is the running broker, old the closed ones
+	old          []*Broker
+	restarts     int
+	restartSeq   int // sequence number at which the last update was completed
+	restarting   bool
+	hasRestart   bool // the scenario contains an update
+	sawStraggler bool
 }
+
+// begunBeforeUpdate: the socket was opened before the last update of the
+// proxy was over, i.e. possibly to the broker that the update closed.
+func (m *c17M) begunBeforeUpdate(c *c17MC) bool {
+	return m.restarting || c.dialSeq <= m.restartSeq
+}
+
+func (m *c17M) brokers() []*Broker { return append(append([]*Broker{}, m.old...), m.b) }
 
 func (m *c17M) next() int { m.seq++; return m.seq }
 
@@ -1232,7 +1284,9 @@ func (m *c17M) history() string { return strings.Join(m.hist, " | ") }
 func (m *c17M) definite() []string {
 	set := map[string]bool{}
 	for _, c := range m.conns {
-		if c.state != "accepted" || c.gone || m.tainted[c.id] {
+		if c.state != "accepted" || c.gone || m.tainted[c.id] || m.begunBeforeUpdate(c) {
+			// (an update of the proxy closes the broker: connections begun before
+			// it are dropped by it sooner or later)
 			continue
 		}
 		ok := true
@@ -1280,22 +1334,37 @@ func (m *c17M) occupants(except *c17MC, since int) []string {
 
 func (m *c17M) brokerIDs() []string {
 	var ids []string
-	for id := range m.b.clients {
-		ids = append(ids, id)
+	for i, b := range m.brokers() {
+		for id := range b.clients {
+			if b != m.b {
+				id = fmt.Sprintf("%s(closed broker #%d)", id, i)
+			}
+			ids = append(ids, id)
+		}
 	}
 	sort.Strings(ids)
 	return ids
 }
 
+func (m *c17M) tableSize() int {
+	n := 0
+	for _, b := range m.brokers() {
+		n += len(b.clients)
+	}
+	return n
+}
+
 // registered tells (white box, used for probes and messages only) whether the
 // broker's table maps the connection's client id to this very connection.
 func (m *c17M) registered(c *c17MC) bool {
-	cl := m.b.clients[c.id]
-	if cl == nil {
-		return false
+	for _, b := range m.brokers() {
+		if cl := b.clients[c.id]; cl != nil {
+			if sc, ok := cl.conn.(*simnet.Conn); ok && sc.ID == c.sid {
+				return true
+			}
+		}
 	}
-	sc, ok := cl.conn.(*simnet.Conn)
-	return ok && sc.ID == c.sid
+	return false
 }
 
 // servedUntil returns the latest sequence number up to which the connection
@@ -1391,7 +1460,9 @@ func (m *c17M) ping(c *c17MC) bool {
 }
 
 func (m *c17M) quiescent() string {
-	n := len(m.b.clients)
+	// the tables of all generations of the proxy's broker count: a client that
+	// a closed broker still serves is a connected client of this MQTTProxy
+	n := m.tableSize()
 	if n > m.maxLen {
 		m.maxLen = n
 	}
@@ -1438,14 +1509,23 @@ func (m *c17M) connect(n *simnet.Net, op c17MOp, who string) *c17MC {
 	// an arbitrary time after the socket was opened (the client task or the
 	// delivery of its bytes was held back), through no doing of the scenario
 	stalled0 := r.StalledFor()
+	dialSeq := m.next()
 	conn, err := c17Dial(r, n, "mdial-"+who, "c17:1883")
+	for try := 1; err != nil && m.hasRestart && try <= 5 && !r.Violated() && !r.Aborted(); try++ {
+		// the port is away for a moment while the proxy is being updated
+		r.Probe("mqtt.dial_refused_during_proxy_update")
+		r.Sleep(time.Millisecond)
+		c17Settle(r, time.Second, func() bool { return !m.restarting })
+		dialSeq = m.next()
+		conn, err = c17Dial(r, n, fmt.Sprintf("mdial-%s.r%d", who, try), "c17:1883")
+	}
 	if err != nil {
 		r.Violate("C17.other", "%s: dial failed: %v", who, err)
 		return nil
 	}
 	scn := conn.(*simnet.Conn)
 	conn.SetDeadline(time.Now().Add(c17Day))
-	c := &c17MC{sid: scn.ID, id: op.ID, state: "sent", conn: conn, clean: op.Clean}
+	c := &c17MC{sid: scn.ID, id: op.ID, state: "sent", conn: conn, clean: op.Clean, dialSeq: dialSeq}
 	for _, d := range m.conns {
 		if d.id == op.ID && d.clean && d.state == "accepted" {
 			// the removal of d's session is (or will be) reported by the delete
@@ -1474,7 +1554,7 @@ func (m *c17M) connect(n *simnet.Net, op c17MOp, who string) *c17MC {
 		c.gone = true
 		c.reapedSeq = m.next()
 		c.state = "failed"
-		if r.StalledFor() != stalled0 {
+		if r.StalledFor() != stalled0 || m.begunBeforeUpdate(c) {
 			c.state = "dropped"
 			m.note("dropped s%d %s before CONNECT", c.sid, c.id)
 			r.Probe("mqtt.silent_socket_dropped_before_connack")
@@ -1501,6 +1581,14 @@ func (m *c17M) connect(n *simnet.Net, op c17MOp, who string) *c17MC {
 		if r.Violated() || r.Aborted() {
 			return nil
 		}
+		if ne, ok := err.(net.Error); (!ok || !ne.Timeout()) && m.begunBeforeUpdate(c) {
+			// the socket was opened to a broker that was closed by an update of
+			// the proxy before its CONNECT was handled
+			c.state = "dropped"
+			m.note("dropped s%d %s by the proxy update", c.sid, c.id)
+			r.Probe("mqtt.handshake_cut_by_proxy_update")
+			return nil
+		}
 		if ne, ok := err.(net.Error); (!ok || !ne.Timeout()) && r.StalledFor() != stalled0 {
 			// the broker closed a socket whose CONNECT was late: the statement is
 			// about connected clients, and this one never became one (no CONNACK,
@@ -1525,6 +1613,12 @@ func (m *c17M) connect(n *simnet.Net, op c17MOp, who string) *c17MC {
 	case packets.Accepted:
 		c.state = "accepted"
 		m.note("accepted s%d %s", c.sid, c.id)
+		if m.begunBeforeUpdate(c) {
+			// admitted by a broker that had been closed meanwhile: it is a
+			// connected client of the proxy all the same (counted by the ping
+			// evidence and the table rule)
+			m.sawStraggler = true
+		}
 		for _, d := range m.conns {
 			if d == c || d.id != c.id || d.state != "accepted" || d.gone {
 				continue
@@ -1697,12 +1791,19 @@ func c17ExecMQTT(r *sim.Run, sc *c17Scenario) {
 	if sc.PubPipe {
 		spec.Rules = append(spec.Rules, &Rule{When: &When{PacketType: Publish}, Pipeline: "c17-publish"})
 	}
-	b := newBroker(spec, newStorage(nil), disc, func(string, string) ([]string, error) { return nil, nil })
+	store := newStorage(nil) // outlives the broker, like the cluster store
+	memberURL := func(string, string) ([]string, error) { return nil, nil }
+	b := newBroker(spec, store, disc, memberURL)
 	if b == nil {
 		r.Violate("C17.harness", "newBroker returned nil")
 		return
 	}
 	m := &c17M{r: r, b: b, cap: sc.Cap, tainted: map[string]bool{}, lastDel: map[string]time.Duration{}, delSeq: map[string][]int{}}
+	for _, op := range sc.MAdmin {
+		if op.Restart {
+			m.hasRestart = true
+		}
+	}
 	r.SetInvariant(m.quiescent)
 	var lingering []*c17MC
 
@@ -1753,10 +1854,31 @@ func c17ExecMQTT(r *sim.Run, sc *c17Scenario) {
 				if r.Violated() || r.Aborted() {
 					return
 				}
-				if op.ID == "" {
+				if op.ID == "" && !op.Restart {
 					continue
 				}
 				r.Sleep(c17Us(op.GapUs))
+				if op.Restart {
+					// what MQTTProxy.Inherit does: Close() of the previous generation,
+					// then Init: a new broker from the (unchanged) spec on the same port
+					m.note("update-proxy")
+					r.Fault("mqtt.proxy_update")
+					old := m.b
+					m.restarting = true
+					m.restartSeq = m.next()
+					old.close()
+					nb := newBroker(spec, store, disc, memberURL)
+					if nb == nil {
+						r.Violate("C17.harness", "newBroker returned nil after the update")
+						return
+					}
+					m.b = nb
+					m.old = append(m.old, old)
+					m.restarts++
+					m.restartSeq = m.next()
+					m.restarting = false
+					continue
+				}
 				// from now on the clients cannot tell any more whether a connection
 				// with this id is still counted by the broker
 				m.tainted[op.ID] = true
@@ -1764,7 +1886,7 @@ func c17ExecMQTT(r *sim.Run, sc *c17Scenario) {
 				m.delSeq[op.ID] = append(m.delSeq[op.ID], m.next())
 				m.note("delete-session %s", op.ID)
 				r.Fault("mqtt.session_delete")
-				if cl := b.clients[op.ID]; cl != nil && !cl.disconnected() {
+				if cl := m.b.clients[op.ID]; cl != nil && !cl.disconnected() {
 					r.Probe("mqtt.session_delete_of_connected_id")
 				}
 				for _, c := range m.conns {
@@ -1774,7 +1896,7 @@ func c17ExecMQTT(r *sim.Run, sc *c17Scenario) {
 				}
 				body, _ := json.Marshal(HTTPSessions{Sessions: []*HTTPSession{{SessionID: op.ID}}})
 				req := httptest.NewRequest(http.MethodDelete, "/mqttproxy/c17/sessions", bytes.NewReader(body))
-				b.httpDeleteSessionHandler(httptest.NewRecorder(), req)
+				m.b.httpDeleteSessionHandler(httptest.NewRecorder(), req)
 			}
 		})
 	}
@@ -1819,7 +1941,7 @@ func c17ExecMQTT(r *sim.Run, sc *c17Scenario) {
 		for i := 0; i < 25 && !r.Aborted(); i++ {
 			r.Sleep(time.Second)
 		}
-		empty := func() bool { return len(b.clients) == 0 }
+		empty := func() bool { return m.tableSize() == 0 }
 		if !c17Settle(r, time.Second, empty) && !r.Violated() && !r.Aborted() {
 			left := m.brokerIDs()
 			allAborted := true
@@ -1891,12 +2013,12 @@ func c17ExecMQTT(r *sim.Run, sc *c17Scenario) {
 		// connections may still be in their handshake: Broker.close sets the
 		// client table to nil and a handleConn arriving afterwards would panic
 		// the process (not this property's business), so stop the broker by hand
-		b.setClose()
-		close(b.done)
-		b.listener.Close()
-		b.sessMgr.close()
+		m.b.setClose()
+		close(m.b.done)
+		m.b.listener.Close()
+		m.b.sessMgr.close()
 	} else {
-		b.close()
+		m.b.close()
 	}
 
 	if refused {
@@ -1916,6 +2038,12 @@ func c17ExecMQTT(r *sim.Run, sc *c17Scenario) {
 	}
 	if disc.ran {
 		r.Probe("mqtt.disconnect_pipeline_ran")
+	}
+	if m.restarts > 0 {
+		r.Probe("mqtt.proxy_updated")
+	}
+	if m.sawStraggler {
+		r.Probe("mqtt.connack_of_previous_broker_read_after_update")
 	}
 	if disc.pub.rejected > 0 {
 		r.Probe("mqtt.will_of_departed_client_rejected")
@@ -1946,7 +2074,7 @@ func TestVerifC17(t *testing.T) {
 		New:      func() interface{} { return &c17Scenario{} },
 		Exec:     c17Exec,
 		MaxSteps: 60000,
-		Rule: "scenario = kind (LimitListener under net/http | whole HTTPServer runtime | MQTT broker) + drawn cap 1-6 + 2-12 client tasks with drawn connection scripts (requests, idle, hold, close/reset/half-close; MQTT: ids from a pool slightly larger than the cap, takeovers with and without CleanSession, pings, lingering connections, clients leaving before CONNACK, last-will messages with a Publish pipeline that passes / drops / disconnects them, 0-4 session deletes through the admin handler, optional slow Disconnect pipeline; a family aims a session delete at the instant the same id reconnects and lets fresh ids fill the table afterwards; final two-round ping roll call) + 0-4 cap changes (HTTP) + temporary Accept errors (http-ll); " +
+		Rule: "scenario = kind (LimitListener under net/http | whole HTTPServer runtime | MQTT broker) + drawn cap 1-6 + 2-12 client tasks with drawn connection scripts (requests, idle, hold, close/reset/half-close; MQTT: ids from a pool slightly larger than the cap, takeovers with and without CleanSession, pings, lingering connections, clients leaving before CONNACK, last-will messages with a Publish pipeline that passes / drops / disconnects them, 0-4 session deletes through the admin handler, updates of the MQTTProxy (broker closed and restarted on the same port with the same cap) while connections are in their handshake, optional slow Disconnect pipeline; a family aims a session delete at the instant the same id reconnects and lets fresh ids fill the table afterwards; final two-round ping roll call) + 0-4 cap changes (HTTP) + temporary Accept errors (http-ll); " +
 			"non-trivial = a client was held back at the cap (HTTP) / a CONNECT was refused with server-unavailable (MQTT); distinct = distinct histories of connect/accept/refuse/close/resize events",
 		Real: []string{"pkg/util/limitlistener (LimitListener, limitListenerConn)", "pkg/util/sem (Semaphore.SetMaxCount)", "golang.org/x/sync/semaphore", "net/http.Server",
 			"pkg/object/httpserver (HTTPServer.Init/Inherit/Close, runtime fsm, reload, startServer, mux)", "pkg/object/mqttproxy (Broker incl. httpDeleteSessionHandler / watchDelete / deleteSession, Client incl. the Disconnect pipeline hook, SessionManager, Session, TopicManager, mock storage with its delete watch)", "paho packets codec"},
@@ -1960,6 +2088,7 @@ func TestVerifC17(t *testing.T) {
 			"a connection counts as open-and-served at an instant only if, after that instant, it got answers to two successive PINGREQs (a connection just dropped by the broker may still get its one outstanding packet answered); connections of one client id count once",
 			"nothing is asserted about how soon a session delete frees its slot; a reconnect killed by a delete event meant for its predecessor is accepted (C16 known finding)",
 			"a client leaving before its CONNACK resets the connection (RST); plain close before CONNACK is not generated (simnet fails the peer's next write immediately, TCP does not)",
+			"an MQTTProxy update (unchanged spec) may drop every connection begun before it was over, with or without CONNACK; clients admitted or still served by the closed broker count as connected clients of the proxy",
 			"a socket closed by the broker without CONNACK is accepted if (and only if) a scheduler stall fell into its handshake (late CONNECT); it never counts as connected",
 			"maxAllowedConnection=0 (unlimited), the MQTT connection rate limiter, keep-alive expiry and session-watch interruptions are not generated",
 		},
